@@ -271,19 +271,23 @@ def run_check(prop, tier, verdict, extra_args=None):
     os.makedirs(C.REPLAYS_TMP, exist_ok=True)
     jobs = []
     phases = [(m, False) for m in modes] + ([("", True)] if spec.get("fault_phase") else [])
+    # keep worker processes short-lived (bounded memory): at most CHUNK cases per process
+    CHUNK = 40000
     for c in grid:
         for mode, fph in phases:
-            for sh in range(shards):
+            total = spec["fault_phase"][ti] if fph else spec.get("mode_cases", {}).get(mode, spec["cases"])[ti]
+            nsh = max(shards, (total + CHUNK - 1) // CHUNK)
+            for sh in range(nsh):
                 wseed = seed * 1000 + len(jobs) + 1
                 tag = "%s%s%s-%d" % (c.name, "-" + mode if mode else "", "-fault" if fph else "", sh)
-                jobs.append(dict(cfg=c, mode=mode, seed=wseed, tag=tag, fault_phase=fph,
+                jobs.append(dict(cfg=c, mode=mode, seed=wseed, tag=tag, fault_phase=fph, ncases=max(1, total // nsh) if nsh > shards else total,
                                  stats=os.path.join(outdir, tag + ".json"),
                                  fp=os.path.join(outdir, tag + ".fp"),
                                  replay=os.path.join(outdir, tag + ".replay"),
                                  crash=os.path.join(outdir, tag + ".crash")))
 
     def one(j):
-        ncases = spec["fault_phase"][ti] if j["fault_phase"] else spec.get("mode_cases", {}).get(j["mode"], spec["cases"])[ti]
+        ncases = j["ncases"]
         cmd = [exe, "--prop", prop, "--cfg", j["cfg"].name, "--seed", str(j["seed"]),
                "--cases", str(ncases), "--max-len", str(25 if j["fault_phase"] else spec["max_len"][ti]),
                "--out", j["stats"], "--fp-out", j["fp"], "--replay-out", j["replay"], "--crash-out", j["crash"]]
